@@ -659,3 +659,279 @@ theorem inv_init (s0 : Store) : Inv (CSys.init s0) := by
   · intro id c t h; simp [CSys.init, List.lookup] at h
 
 end Obao.CacheTxn
+
+namespace Obao.CacheTxn
+open Obao.SerialTxn Obao.InmemTxn
+
+/-! ### the commit window (micro-steps in code order with concurrent readers) -/
+
+/-- the two invariants that do not mention the parent cache -/
+def TW (s : CSys) : Prop := TxnCoherent s ∧ WritesCovered s
+
+theorem tw_congr (s s' : CSys) (h : TW s) (hc : s'.ctxns = s.ctxns) (ht : s'.inner.txns = s.inner.txns) : TW s' := by
+  obtain ⟨tc, wc⟩ := h
+  refine ⟨?_, ?_⟩
+  · intro id' c t hc' ht'; rw [hc] at hc'; rw [ht] at ht'; exact tc id' c t hc' ht'
+  · intro id' c t hc' ht'; rw [hc] at hc'; rw [ht] at ht'; exact wc id' c t hc' ht'
+
+theorem tw_frame (s s' : CSys) (id : Nat) (t' : Txn) (c' : CTxn) (hi : TW s)
+    (hc' : s'.ctxns.lookup id = some c') (ht' : s'.inner.txns.lookup id = some t')
+    (hco : ∀ id', id' ≠ id → s'.ctxns.lookup id' = s.ctxns.lookup id')
+    (hto : ∀ id', id' ≠ id → s'.inner.txns.lookup id' = s.inner.txns.lookup id')
+    (htc : t'.finished = false → ∀ k e, c'.lru.lookup k = some e → e = sget t'.root k)
+    (hwc : ∀ o ∈ t'.operations, isWriteOp o = true → o.argKey ∈ c'.modified) : TW s' := by
+  obtain ⟨tc, wc⟩ := hi
+  refine ⟨?_, ?_⟩
+  · intro id' c t hc ht hf k e hl
+    by_cases hid : id' = id
+    · subst hid
+      rw [hc'] at hc; rw [ht'] at ht; cases hc; cases ht
+      exact htc hf k e hl
+    · rw [hco id' hid] at hc; rw [hto id' hid] at ht
+      exact tc id' c t hc ht hf k e hl
+  · intro id' c t hc ht o ho hw
+    by_cases hid : id' = id
+    · subst hid
+      rw [hc'] at hc; rw [ht'] at ht; cases hc; cases ht
+      exact hwc o ho hw
+    · rw [hco id' hid] at hc; rw [hto id' hid] at ht
+      exact wc id' c t hc ht o ho hw
+
+/-- entries of the parent cache are current, except possibly for keys still waiting to be evicted -/
+def StaleOnly (s : CSys) (pending : List Key) : Prop :=
+  ∀ k e, s.lru.lookup k = some e → e = sget s.inner.parent k ∨ k ∈ pending
+
+def WinInv (w : Win) : Prop :=
+  TW w.sys ∧
+  match w.phase with
+  | .before => ParentCoherent w.sys ∧ (∃ c, w.sys.ctxns.lookup w.id = some c) ∧ (∃ t, w.sys.inner.txns.lookup w.id = some t)
+  | .invalidating pending => StaleOnly w.sys pending
+  | .done => ParentCoherent w.sys
+
+/-- a plain reader step: only the parent cache changes, and only by a CURRENT entry -/
+theorem reader_facts (s : CSys) (k : Key) :
+    ∃ s' r, s.step (.plain (.get k)) = some (s', r) ∧ s'.ctxns = s.ctxns ∧ s'.inner = s.inner ∧
+      (s'.lru = s.lru ∨ s'.lru = lruSet s.lru k (sget s.inner.parent k)) := by
+  simp only [CSys.step]
+  cases hl : s.lru.lookup k with
+  | some e => exact ⟨s, .val e, rfl, rfl, rfl, Or.inl rfl⟩
+  | none =>
+    simp only [Sys.step, plainRes, SerialTxn.step]
+    exact ⟨_, _, rfl, rfl, rfl, Or.inr rfl⟩
+
+theorem staleOnly_reader (s s' : CSys) (k : Key) (pending : List Key) (h : StaleOnly s pending)
+    (hin : s'.inner = s.inner) (hl : s'.lru = s.lru ∨ s'.lru = lruSet s.lru k (sget s.inner.parent k)) :
+    StaleOnly s' pending := by
+  intro k' e' hk'
+  rw [hin]
+  rcases hl with hl | hl
+  · rw [hl] at hk'; exact h k' e' hk'
+  · rw [hl] at hk'
+    by_cases hk : k' = k
+    · subst hk; simp only [lookup_lruSet_same] at hk'; cases hk'; exact Or.inl rfl
+    · simp only [lookup_lruSet_other _ _ _ _ hk] at hk'; exact h k' e' hk'
+
+theorem winInv_reader (w : Win) (k : Key) (h : WinInv w) : WinInv (w.reader k).1 := by
+  obtain ⟨s', r, hs, hc, hin, hl⟩ := reader_facts w.sys k
+  unfold Win.reader
+  rw [hs]
+  obtain ⟨tw, hp⟩ := h
+  have tw' : TW s' := tw_congr w.sys s' tw hc (by rw [hin])
+  refine ⟨tw', ?_⟩
+  have pc_of : ParentCoherent w.sys → ParentCoherent s' := by
+    intro pc
+    have : StaleOnly s' [] := staleOnly_reader w.sys s' k [] (fun k e hk => Or.inl (pc k e hk)) hin hl
+    intro k' e' hk'
+    rcases this k' e' hk' with h1 | h1
+    · exact h1
+    · cases h1
+  cases hph : w.phase with
+  | before =>
+    simp only [hph] at hp ⊢
+    obtain ⟨pc, hc1, ht1⟩ := hp
+    exact ⟨pc_of pc, by rw [hc]; exact hc1, by rw [hin]; exact ht1⟩
+  | invalidating pending =>
+    simp only [hph] at hp ⊢
+    exact staleOnly_reader w.sys s' k pending hp hin hl
+  | done =>
+    simp only [hph] at hp ⊢
+    exact pc_of hp
+
+theorem winInv_tick (w : Win) (h : WinInv w) : WinInv w.tick := by
+  obtain ⟨tw, hp⟩ := h
+  unfold Win.tick
+  cases hph : w.phase with
+  | done => simp only; exact ⟨tw, by simpa [hph] using hp⟩
+  | invalidating pending =>
+    simp only [hph] at hp
+    cases pending with
+    | nil =>
+      simp only
+      refine ⟨tw, ?_⟩
+      simp only
+      intro k e hk
+      rcases hp k e hk with h1 | h1
+      · exact h1
+      · cases h1
+    | cons k rest =>
+      simp only
+      refine ⟨tw_congr w.sys _ tw rfl rfl, ?_⟩
+      simp only
+      intro k' e' hk'
+      by_cases hkk : k' = k
+      · subst hkk; simp only [lookup_lruRemove_same] at hk'; cases hk'
+      · simp only [lookup_lruRemove_other _ _ _ hkk] at hk'
+        rcases hp k' e' hk' with h1 | h1
+        · exact Or.inl h1
+        · rcases List.mem_cons.mp h1 with h2 | h2
+          · exact absurd h2 hkk
+          · exact Or.inr h2
+  | before =>
+    simp only [hph] at hp
+    obtain ⟨pc, ⟨c, hc⟩, _⟩ := hp
+    simp only [hc]
+    cases hin : w.sys.inner.step (.commit w.id) with
+    | none => simp only; exact ⟨tw, by simp only [hph]; exact ⟨pc, ⟨c, hc⟩, by assumption⟩⟩
+    | some ir =>
+      obtain ⟨i', r⟩ := ir
+      obtain ⟨t, ht, hi', hr'⟩ := inner_commit _ _ _ _ hin
+      obtain ⟨hops, hok, hnok, hfin⟩ := commit_facts t w.sys.inner.parent
+      have hpar : i'.parent = (t.commit w.sys.inner.parent).1 := by rw [hi']
+      have htx : i'.txns = setTxn w.sys.inner.txns w.id (t.commit w.sys.inner.parent).2.1 := by rw [hi']
+      have wcOld := tw.2
+      have hwc : ∀ o ∈ (t.commit w.sys.inner.parent).2.1.operations, isWriteOp o = true → o.argKey ∈ c.modified := by
+        intro o ho hw; rw [hops] at ho; exact wcOld w.id c t hc ht o ho hw
+      -- the two invariants that ignore the parent cache, for the state right after the underlying commit
+      have tw' : TW { w.sys with inner := i' } := by
+        have hcs : ({ w.sys with inner := i' } : CSys).ctxns.lookup w.id = some c := hc
+        have hts : ({ w.sys with inner := i' } : CSys).inner.txns.lookup w.id = some (t.commit w.sys.inner.parent).2.1 := by
+          show i'.txns.lookup w.id = _
+          rw [htx]; exact lookup_setTxn_same ..
+        refine tw_frame w.sys _ w.id _ c tw hcs hts (fun id' _ => rfl) ?_
+          (fun hf => absurd hf (by intro hf; exact hfin hf)) hwc
+        intro id' h'
+        show i'.txns.lookup id' = _
+        rw [htx]; exact lookup_setTxn_other _ _ _ _ h'
+      by_cases hr : r = .ok
+      · subst hr
+        simp only
+        refine ⟨tw', ?_⟩
+        simp only
+        intro k e hl
+        by_cases hm : k ∈ c.modified
+        · exact Or.inr hm
+        · left
+          have := pc k e hl
+          rw [this]
+          show sget w.sys.inner.parent k = sget i'.parent k
+          rw [hpar]
+          rcases (hok hr'.symm).2 with hp' | hp'
+          · rw [hp']
+          · symm
+            apply replay_other _ _ _ _ hp'
+            intro o ho hw hk
+            exact hm (hk ▸ wcOld w.id c t hc ht o ho hw)
+      · have hgoal : WinInv { w with sys := { w.sys with inner := i' }, phase := .done, res := r } := by
+          refine ⟨tw', ?_⟩
+          simp only
+          intro k e hl
+          show e = sget i'.parent k
+          rw [hpar, hnok (by rw [← hr']; exact hr)]; exact pc k e hl
+        cases r <;> first | exact hgoal | exact absurd rfl hr
+
+end Obao.CacheTxn
+
+namespace Obao.CacheTxn
+open Obao.SerialTxn Obao.InmemTxn
+
+theorem winInv_step (w : Win) (st : WStep) (h : WinInv w) : WinInv (w.step st) := by
+  cases st with
+  | reader k => exact winInv_reader w k h
+  | tick => exact winInv_tick w h
+
+theorem winInv_run (w : Win) (sched : List WStep) (h : WinInv w) : WinInv (w.run sched) := by
+  induction sched generalizing w with
+  | nil => exact h
+  | cons st r ih => exact ih _ (winInv_step w st h)
+
+theorem winInv_drain (w : Win) (h : WinInv w) (hb : w.phase ≠ .before) : WinInv w.drain ∧ w.drain.phase = .done := by
+  obtain ⟨tw, hp⟩ := h
+  unfold Win.drain
+  cases hph : w.phase with
+  | before => exact absurd hph hb
+  | done => simp only; exact ⟨⟨tw, by simpa [hph] using hp⟩, hph⟩
+  | invalidating pending =>
+    simp only [hph] at hp ⊢
+    refine ⟨⟨tw_congr w.sys _ tw rfl rfl, ?_⟩, trivial⟩
+    simp only
+    intro k e hk
+    obtain ⟨hnm, hl0⟩ := lookup_foldl_remove _ _ _ _ hk
+    rcases hp k e hl0 with h1 | h1
+    · exact h1
+    · exact absurd h1 hnm
+
+theorem tick_leaves_before (w : Win) (h : WinInv w) (hb : w.phase = .before) : w.tick.phase ≠ .before := by
+  obtain ⟨_, hp⟩ := h
+  simp only [hb] at hp
+  obtain ⟨_, ⟨c, hc⟩, ⟨t, ht⟩⟩ := hp
+  unfold Win.tick
+  simp only [hb, hc, Sys.step, ht]
+  cases (t.commit w.sys.inner.parent).2.2 <;> simp
+
+theorem winInv_finish (w : Win) (h : WinInv w) : WinInv w.finish ∧ w.finish.phase = .done := by
+  unfold Win.finish
+  cases hph : w.phase with
+  | before => exact winInv_drain _ (winInv_tick w h) (tick_leaves_before w h hph)
+  | invalidating p => exact winInv_drain w h (by rw [hph]; simp)
+  | done => exact winInv_drain w h (by rw [hph]; simp)
+
+theorem inv_of_winInv_done (w : Win) (h : WinInv w) (hd : w.phase = .done) : Inv w.sys := by
+  obtain ⟨tw, hp⟩ := h
+  simp only [hd] at hp
+  exact ⟨hp, tw.1, tw.2⟩
+
+theorem winInv_start (s : CSys) (id : Nat) (w : Win) (hi : Inv s) (h : Win.start s id = some w) : WinInv w := by
+  unfold Win.start at h
+  cases hc : s.ctxns.lookup id with
+  | none => simp [hc] at h
+  | some c =>
+    cases ht : s.inner.txns.lookup id with
+    | none => simp [hc, ht] at h
+    | some t =>
+      simp only [hc, ht] at h; cases h
+      exact ⟨⟨hi.2.1, hi.2.2⟩, hi.1, ⟨c, hc⟩, ⟨t, ht⟩⟩
+
+theorem inv_runM (s : CSys) (ms : List MEvent) (hi : Inv s) : Inv (s.runM ms) := by
+  induction ms generalizing s with
+  | nil => exact hi
+  | cons m r ih =>
+    cases m with
+    | ev e =>
+      simp only [CSys.runM]
+      cases hs : s.step e with
+      | none => exact ih s hi
+      | some sr => obtain ⟨s', res⟩ := sr; exact ih s' (inv_step s s' e res hs hi)
+    | window id sched =>
+      simp only [CSys.runM]
+      cases hw : Win.start s id with
+      | none => exact ih s hi
+      | some w =>
+        have h1 := winInv_run w sched (winInv_start s id w hi hw)
+        obtain ⟨h2, h3⟩ := winInv_finish _ h1
+        exact ih _ (inv_of_winInv_done _ h2 h3)
+
+/-- with no reader in the window the micro-step commit is the atomic commit step of the operation-granular model -/
+theorem window_no_readers (s : CSys) (id : Nat) (w : Win) (h : Win.start s id = some w) :
+    s.step (.commit id) = some (w.finish.sys, w.finish.res) := by
+  unfold Win.start at h
+  cases hc : s.ctxns.lookup id with
+  | none => simp [hc] at h
+  | some c =>
+    cases ht : s.inner.txns.lookup id with
+    | none => simp [hc, ht] at h
+    | some t =>
+      simp only [hc, ht] at h; cases h
+      simp only [CSys.step, hc, Win.finish, Win.tick, Sys.step, ht]
+      cases hr : (t.commit s.inner.parent).2.2 <;> simp [Win.drain]
+
+end Obao.CacheTxn
